@@ -4,6 +4,7 @@ import logging
 import os
 import random
 
+import ebbfake
 import vlib
 
 LEVEL = "model_checking"
@@ -21,7 +22,7 @@ def _mods():
     return ebb_serial, serial
 
 
-class LegacyPort:
+class LegacyPort(ebbfake.PortExtras):
     """Scripted legacy board (mirrors LegacyOps!Enq / ReadQ); logs every port operation."""
 
     def __init__(self, serial_mod, log):
@@ -109,8 +110,6 @@ class LegacyPort:
 
     def close(self):
         pass
-
-    flushInput = reset_input_buffer = close
 
 
 def run_script(mods, script, tid):
